@@ -28,7 +28,7 @@ if os.path.realpath(REPO) != "/repo":
 
 
 def load_sidecars():
-    from pyvc import dsl, ghost, frames  # noqa
+    from pyvc import dsl, ghost, frames, npmodel  # noqa
 
     for p in sorted(glob.glob(os.path.join(ROOT, "contracts", "C*.py"))):
         name = "contracts." + os.path.basename(p)[:-3]
@@ -37,14 +37,17 @@ def load_sidecars():
 
 
 def _prove_one(task):
-    cid, tier, seed = task
+    cid, tier, seed, shape_k = task
     from pyvc import dsl
     from pyvc.prove import Prover
 
     by_name = {c.name: c for c in dsl.REGISTRY}
     c = next(x for x in dsl.REGISTRY if x.id == cid)
     pr = Prover(by_name, tier=tier, seed=seed, replay_dir="replays")
-    ur = pr.prove(c)
+    if shape_k == "native":
+        ur = pr.prove(c, only_shape=-1, native=True)
+    else:
+        ur = pr.prove(c, only_shape=shape_k, native=False)
     out = ur.to_json()
     out["violations"] = [
         dict(id=o.id, status=o.status, replay=o.replay, detail=o.detail[:500], args=repr(o.model)[:500])
@@ -52,6 +55,31 @@ def _prove_one(task):
         if o.status in ("violated", "violated-unreplayed")
     ]
     return out
+
+
+def _merge_units(parts):
+    """Results of the per-shape tasks of one contract -> one unit record."""
+    by = {}
+    order = []
+    for p in parts:
+        k = p["contract"]
+        if k not in by:
+            by[k] = p
+            order.append(k)
+            continue
+        u = by[k]
+        u["shapes"] += p["shapes"]
+        u["paths"] += p["paths"]
+        u["reachable"] = u["reachable"] or p["reachable"]
+        u["obligations"] += p["obligations"]
+        u["undecided"] = (u["undecided"] + p["undecided"])[:10]
+        u["trusted_calls"] = sorted(set(u["trusted_calls"]) | set(p["trusted_calls"]))
+        u["errors"] += p["errors"]
+        u["violations"] += p["violations"]
+        u["wall_s"] = round(u["wall_s"] + p["wall_s"], 3)
+        if p["native"]["evaluations"] or p["native"]["failures"] or p["native"]["crosscheck_mismatch"]:
+            u["native"] = p["native"]
+    return [by[k] for k in order]
 
 
 def _bounded_one(task):
@@ -121,7 +149,17 @@ def main(argv=None):
     if not mine and not mineb:
         print(f"CHECKER-ERROR: no contracts or bounded stand-ins registered for {a.pid}")
         return 3
-    tasks = [(c.id, a.tier, seed) for c in mine]
+    from pyvc.prove import Prover
+
+    _pr = Prover({}, tier=a.tier)
+    tasks = []
+    for c in mine:
+        try:
+            n = _pr.n_shapes(c)
+        except Exception:
+            n = 1
+        tasks.extend((c.id, a.tier, seed, k) for k in range(n))
+        tasks.append((c.id, a.tier, seed, "native"))
     btasks = [(b.name, b.pid, a.tier, seed) for b in mineb]
     units, bres = [], []
     if a.jobs <= 1:
@@ -134,6 +172,7 @@ def main(argv=None):
             rb = pool.map_async(_bounded_one, btasks, chunksize=1)
             units = ru.get()
             bres = rb.get()
+    units = _merge_units(units)
     return report.finish(a.pid, a.tier, seed, units, bres, time.time() - t0, verbose=a.verbose)
 
 
